@@ -344,6 +344,34 @@ def main(replay=None):
             ndis += 1
             rep["broken"] = "correspondence PboDefs.open/files/attributes/read_entry vs rvutils::pbo::pbofile"
             run.violation("implementation and model disagree (property oracle satisfied on this input)", rep, found_input=False)
+    # ---- the extracted model against the kernel: a sample of this run's cases is evaluated inside Coq (vm_compute) and must give
+    #      exactly what the OCaml driver printed for them (ties extraction + ocaml/pbo_driver.ml to the definitions the theorems are about)
+    def zl(b):
+        return "[" + ";".join(str(x) for x in b) + "]"
+
+    def gallina_of(ml):
+        if ml == "FAIL":
+            return "None"
+        f = ml.split("\t")
+        ats = "[" + ";".join("(%s,%s)" % (zl(V.unhx(a.split("=")[0])), zl(V.unhx(a.split("=")[1]))) for a in f[1].split(";") if a) + "]"
+        meth = {"n": "MNone", "e": "MEncrypted", "c": "MCompressed", "v": "MVersion"}
+        fs = "[" + ";".join("(%s,%s,%s)" % (zl(V.unhx(x.split(":")[0])), meth[x.split(":")[1]], x.split(":")[2]) for x in f[2].split(";") if x) + "]"
+        rd = "None" if f[4] == "NONE" else "Some " + zl(V.unhx(f[4][1:]))
+        return "Some (%s, %s, %s)" % (ats, fs, rd)
+
+    pairs = [(c, m) for c, m in zip([c for c in cases if c[1] is not None], model) if len(c[1]) <= 400]
+    sample = rng.sample(pairs, min(len(pairs), 60 if thorough else 25)) if pairs else []
+    sample += [pm for pm in pairs if pm[1] != "FAIL"][:10]
+    body = ["Definition probe (c : list Z * list Z) :=",
+            "  match open (fst c) with None => None | Some p => Some (attributes p, files p, read_entry (fst c) p (snd c)) end."]
+    for i, ((kind, fb, nm, exp), ml) in enumerate(sample):
+        body.append("Example k%d : probe (%s, %s) = %s. Proof. vm_compute. reflexivity. Qed." % (i, zl(fb), zl(nm), gallina_of(ml)))
+    okk, msg = V.kernel_crosscheck("C17", "From Coq Require Import ZArith List. Import ListNotations.\nFrom SqfVerif Require Import PBO.PboDefs.\nLocal Open Scope Z_scope.", "\n".join(body))
+    run.cov["kernel_crosscheck"] = {"cases": len(sample), "agree": okk,
+                                    "what": "PboDefs.open / attributes / files / read_entry evaluated by vm_compute inside Coq = output of the extracted OCaml driver on the same archives"}
+    if not okk:
+        run.violation("the extracted model and the kernel's evaluation of the same definitions disagree (or the kernel file does not compile)",
+                      {"broken": "extraction / ocaml/pbo_driver.ml vs PBO/PboDefs.v", "coqc": msg}, found_input=False)
     for p in problems:
         run.violation("proof obligation not discharged: " + p, {"broken": p, "theorems": run.cov["theorems"]}, found_input=False)
     run.cov["evaluations"] = len(cases)
